@@ -269,7 +269,10 @@ def run_component(name, pid, seed):
                         is_absorbing=lambda s: s in goals)
         if name == "astar":
             res = AStarSearch(seed=seed, randomize_action_order=True, tie_breaking_strategy="random").plan_on(prob)
-            return None if res is None else dict(path=res.path, value=res.path_value, visited=res.visited)
+            # the seed also governs random tie-breaking ALONE (actions tried in their listed order)
+            res_t = AStarSearch(seed=seed, randomize_action_order=False, tie_breaking_strategy="random").plan_on(prob)
+            tie_only = None if res_t is None else dict(path=res_t.path, value=res_t.path_value, visited=res_t.visited)
+            return None if res is None else dict(path=res.path, value=res.path_value, visited=res.visited, tie_only=tie_only)
         res = BreadthFirstSearch(seed=seed, randomize_action_order=True).plan_on(prob)
         return None if res is None else dict(path=res.path, visited=res.visited)
     if name in ("qlearning", "sarsa", "expsarsa", "doubleq"):
@@ -319,6 +322,27 @@ def run_component(name, pid, seed):
             d_fresh = dict(fresh.next_state_transit_time_reward_dist(s0, ob).items())
             out["second-option"] = d_fresh
             out["__order_independent__"] = (digest(d_used) == digest(d_fresh))
+        # two semi-MDPs over DIFFERENT ground models (this one and a unit-cost twin) that share the option object, the seed and the
+        # simulation count, used alternately: what this one returns is what it returns on its own
+        import copy as _copy2
+        from mon.gen import build as Bd2_
+        tw = _copy2.deepcopy(sp)
+        for k_ in tw.R:
+            tw.R[k_] = -7.0
+        twin_mdp = Bd2_.SpecMDP(tw)
+        twin_mdp._state_list, twin_mdp._action_list = tuple(mdp.state_list), tuple(mdp.action_list)
+        semi_t = SemiMarkovDecisionProcess(mdp=twin_mdp, options=[opt], n_option_simulations=6, seed=seed)
+        semi_m = SemiMarkovDecisionProcess(mdp=mdp, options=[opt], n_option_simulations=6, seed=seed)
+        g_ = sp.gamma
+        for s in starts[:2]:
+            d_tw = dict(semi_t.next_state_transit_time_reward_dist(s, opt).items())
+            for (ns_, t_, r_), p_ in d_tw.items():      # in the twin every step costs 7: the return of t steps is known
+                want_ = -7.0 * (t_ if g_ == 1.0 else (1 - g_ ** t_) / (1 - g_))
+                if p_ > 0 and abs(r_ - want_) > 1e-9 * max(1.0, abs(want_)):
+                    out["__order_independent__"] = False
+            d_alt = dict(semi_m.next_state_transit_time_reward_dist(s, opt).items())
+            if digest(d_alt) != digest(out[s]):
+                out["__order_independent__"] = False
         # numeric state labels (a noisy walk on 0..6, a user-written wandering option): the caller may spell the label 3, 3.0 or
         # numpy.int64(3); what a query returns must not depend on which spellings were asked about before it
         from msdm.core.mdp.mdp import MarkovDecisionProcess
